@@ -112,6 +112,30 @@ func readUntilClosed(cl *lab.Client, idle time.Duration) (frames []*wire.Message
 	}
 }
 
+// drainUntilClosed is readUntilClosed for scenarios that only need to know HOW and WHEN the connection ended:
+// the bytes are read into one buffer and dropped, nothing is parsed or kept (megabytes per connection, with the
+// collector off, would otherwise pile up as garbage of the harness itself).
+func drainUntilClosed(cl *lab.Client, idle time.Duration) (how string, seq int64) {
+	buf := make([]byte, 64<<10)
+	for {
+		_ = cl.C.SetReadDeadline(time.Now().Add(idle))
+		_, err := cl.C.Read(buf)
+		if err == nil {
+			continue
+		}
+		seq = lab.NextSeq()
+		var ne net.Error
+		switch {
+		case errors.Is(err, io.EOF):
+			return "eof", seq
+		case errors.As(err, &ne) && ne.Timeout():
+			return "timeout", seq
+		default:
+			return "reset", seq
+		}
+	}
+}
+
 // rst closes a TCP connection abruptly (RST instead of FIN).
 func rst(c net.Conn) {
 	type linger interface{ SetLinger(int) error }
